@@ -346,6 +346,10 @@ func plan() []group {
 	asym := kc.SupportedAsymmetricAlgorithms()
 	sigs := kc.SupportedSignatureAlgorithms()
 	gs = append(gs, group{kind: "vectors"}, group{kind: "names"})
+	// the matrix under concurrency: rounds with 2..8 goroutines (rep%7+2); the only groups the -race build runs
+	for r := 0; r < mon.Pick(7, 28); r++ {
+		gs = append(gs, group{"concurrent", "", r})
+	}
 	symReps := mon.Pick(1, 8)
 	rsaReps := mon.Pick(1, 2)
 	sigReps := mon.Pick(1, 4)
@@ -395,6 +399,7 @@ func TestCheck(t *testing.T) {
 		"keys (sizes 0,8,15,16,17,24,32,33,48,64 and every other key kind), noncetag (nonce and tag lengths 0..32), ctlen (ciphertext lengths 0..65/0..80), names (near-miss algorithm names on every entry point), vectors (RFC 3394 section 4, RFC 7518 appendix B). "+
 		"Buffer layouts: every tamper and wrong-size case of the symmetric entry points (crypto.EncryptSymmetric/DecryptSymmetric/Encrypt/Decrypt, aeskw.Wrap/Unwrap, aescbcaead Seal/Open, padding) is run with exactly-sized argument slices and again with the arguments cut out of a larger array with 0, 16, 64 and 2*tagSize+8 bytes of spare capacity (seeded garbage) behind their length; same oracle, signature suffix /spare-capacity, counters <class>.spare_capacity. "+
 		"Buffer re-use: every kit call (crypto.*, aeskw, aescbcaead, padding, sign/verify) gets private copies of its []byte inputs and of an oct key's bytes; right after the call returns all of them are overwritten (every byte inverted, spare capacity included) and only then are the outputs compared with the reference and fed to the inverse operation, whose result is compared with the harness's pristine original; an output that moved under the overwrite is reported as <entry>/<alg>/output-aliases-input-buffer; counter wipe.calls_checked. "+
+		"Concurrency: rounds of 2..8 real goroutines (plain build and a -race build that runs only these rounds), each goroutine with its own keys/JWK objects, messages and buffers; a round is a barrier-released sequence of 13 family steps (the goroutines run different members of one family at once: PS256||PS384||PS512, RS*, ES*, A*GCM, A*CBC, -NOPAD, -HS*, A*KW+aeskw, (X)C20P(KW), RSA-OAEP*/RSA1_5, the AEAD mix) and seeded mixed steps over the whole matrix, a fixed number of iterations per task; every operation must give what the independent implementation computed alone beforehand (symmetric outputs and RS*/EdDSA signatures byte-identical, randomised ones verified/decrypted by the standard library, kit's own inverse succeeds); signatures concurrent/<op>/<alg>/{valid-input-rejected,result-differs-from-solo,panic}; race-detector reports through kit frames are violations too. "+
 		"cipher.AEAD append contract (the four aescbcaead constructions, the only AEAD values kit exposes): message lengths 0..100 (block boundaries; all in thorough) x AD lengths 0/5/33 x dst shapes nil, empty with cap 0/exact/ample, prefixes of 1/4/16/33 bytes with spare capacity 0, 1, n-1, n, n+1, p+n-1, p+n, p+n+64 (n = bytes the call appends): no panic, result = dst || the reference composition's sealed message (Seal) or dst || plaintext (Open), bytes below len(dst) untouched, tampered tag/ciphertext rejected with the prefix intact; plus the documented idioms Seal(nonce, nonce, msg, ad), Open(sealed[:0], ...), Seal(plaintext[:0], ...). "+
 		"Repeated operation: before anything is overwritten every kit call is made again on the very same argument slices, immediately and once more after an unrelated kit call (AES-GCM, AES-CBC-HMAC and key-wrap round trips on other buffers), and must answer the same each time - same panic/error/no error and same output bytes; for RSA encryption, RSASSA-PSS and ECDSA same error/no error, with the judges decrypting/verifying the first or the last output alternately (signatures <entry>/<alg>/second-call-on-same-buffers-differs and /later-call-on-same-buffers-differs, counter repeat.calls_repeated_on_same_buffers). "+
 		"Retained results: the slices returned by the last 3 calls of every entry point (encrypt, decrypt, wrap, unwrap, seal, open, pad, RSA encrypt/decrypt, sign; all algorithms, the ring lives across groups) are kept with a pristine copy and compared again after every later kit call (signature <entry>/<alg>/earlier-result-changed-by-later-call, counter retained.results_rechecked); every call that returned something is also repeated with the same inputs and the second result overwritten completely, which must leave the first untouched (<entry>/<alg>/two-results-share-memory, counter retained.back_to_back_pairs_checked); UnpadPKCS7 is exempt (prefix of its input by design). "+
@@ -406,12 +411,13 @@ func TestCheck(t *testing.T) {
 		"rsa.roundtrip.ok", "rsa.interop.std_decrypts_kit", "rsa.interop.kit_decrypts_std", "rsa.tamper.rejected",
 		"sig.roundtrip.ok", "sig.interop.std_verifies_kit", "sig.interop.kit_verifies_std", "sig.tamper.rejected",
 		"names.rejected", "tamper.spare_capacity", "wrongsize.spare_capacity", "padding.spare_capacity", "wipe.calls_checked", "retained.results_rechecked", "retained.back_to_back_pairs_checked", "repeat.calls_repeated_on_same_buffers",
+		"concurrent.operations", "concurrent.operations.main", "concurrent.operations.race", "concurrent.steps_with_different_algorithms_at_once",
 		"aead_append.seal_ok", "aead_append.open_ok", "aead_append.tamper_rejected", "aead_append.idioms_ok",
 		"padding.unpad.agree_accept", "padding.unpad.agree_reject", "padding.cbc.valid_accepted", "padding.cbc.invalid_rejected", "padding.hs.valid_accepted", "padding.hs.invalid_rejected"})
 	selfCheckRefs()
 	gs := plan()
 	for idx, g := range gs {
-		if !mon.Mine(idx) {
+		if !mon.Mine(idx) || (buildName != "main" && g.kind != "concurrent") {
 			continue
 		}
 		rec.Begin(idx, g.String())
@@ -444,6 +450,8 @@ func TestCheck(t *testing.T) {
 			runSymPadding(j, g)
 		case "aead-append":
 			runAEADAppend(j, g)
+		case "concurrent":
+			runConcurrent(j, g)
 		case "rsa-roundtrip":
 			runRSARoundTrip(j, g)
 		case "rsa-tamper":
